@@ -30,6 +30,7 @@ def run(ctx):
     results = pipeline.run_pipeline(texts, "codec-%s-%d" % (ctx.tier, ctx.seed))
     programs = 0
     accepted = 0
+    evaluated = set()
     for item in results:
         if "error" in item:
             ctx.count("inputs_without_model")
@@ -57,10 +58,30 @@ def run(ctx):
                 accepted += 1
                 if target == "go":
                     ctx.sample({"dsl": item["text"][:400], "verdict": "validator accepts: %s holds for all messages of this program" % ctx.prop}, 3)
+            # a packet whose length field is not directly followed by its target is outside the validator's (and the theorem's)
+            # domain; every reason reported for it is an artefact of the unsupported plan.  It is decided by direct evaluation:
+            # the IR semantics of the real output against the declared layout on sampled messages of that packet.
+            far = {r["packet"] for r in c["reasons"] if r["attr"] in UNSUPPORTED_ATTRS}
             for r in mine:
                 ctx.count("reasons_examined")
-                if r["attr"] in UNSUPPORTED_ATTRS:
+                if r["packet"] in far:
                     ctx.count("unsupported_layout")
+                    key = (item["text"], target, r["packet"])
+                    if key in evaluated or "enc" not in sides:
+                        continue
+                    evaluated.add(key)
+                    s = pipeline.search_failing(item["text"], ent["prog"], r["packet"], ctx.seed, 40)
+                    # with a checksum service registered, a checksum INSIDE the measured payload sees the length placeholder in
+                    # one reading and the patched length in the other (DESIGN §8.0): only failures without a service count here;
+                    # the decoder side of a length field is a plain read, judged by confDec
+                    if s.get("fail") == "enc" and s.get("registry") == "none":
+                        sig = "enc/%s/far-layout-evaluated" % target
+                        ctx.finding(sig, "packet %s (length field not adjacent to its target): the emitted encoder deviates from the declared layout on a sampled message"
+                                    % r["packet"],
+                                    {"dsl": item["text"], "target": target, "reason": r, "search": s,
+                                     "broken": "direct evaluation (outside the validator's domain): IR.encStruct vs Wire.enc"}, True)
+                    else:
+                        ctx.count("unsupported_layout_evaluated_ok")
                     continue
                 sig = "%s/%s/%s/%s" % (r["side"], target, r["kind"], r["attr"])
                 if ctx.is_known(sig):
